@@ -919,6 +919,20 @@ PROPS["C04"]["level_note"] = PROPS["C04"]["level_note"] + (
     "condition of the client.")
 PROPS["C04"]["assumptions"] = PROPS["C04"]["assumptions"] + ["8-byte values, mixed pointer / absolute intersect of DataDomain<IntervalDomain>: merge_span <= i64::MAX on the intermediate absolute parts"]
 
+# ---- twins for DataDomain / DomainMap (replay/src/c03b.rs) ------------------------------------------------------------
+TWINS["data_domain"] = [("DataDomain<T>::merge", "c03.data_merge"), ("DataDomain<T>::add_", "c04.data_bounds"), ("DataDomain<T>::is_empty", "c04.data_bounds"),
+    ("intersect_relative_values", "c04.data_intersect"), ("DataDomain<T>::intersect", "c04.data_intersect"), ("DataDomain<T>::from", "c04.data_intersect"),
+    ("DataDomain<T>::is_top", "c03.domain_map"), ("DataDomain<T>::new_top", "c03.domain_map"), ("DataDomain<T>::top", "c03.domain_map")]
+TWINS["domain_map"] = [("", "c03.domain_map")]
+TWINS["instantiate_domain_map_data"] = [("AbstractDomain::merge_with", "c03.domain_map")]
+TWINS["instantiate_data_domain"] = [("", "c03.data_merge")]
+TWINS["instantiate_domain_map"] = [("", "c03.domain_map")]
+TWINS["taint"] = TWINS.get("taint", []) + [("Taint::merge", "c03.domain_map"), ("Taint::is_top", "c03.domain_map")]
+PROPS["C03"]["default_twins"] = PROPS["C03"]["default_twins"] + ["c03.data_merge", "c03.domain_map"]
+PROPS["C03"]["sweep_twins"] = PROPS["C03"]["sweep_twins"] + ["c03.data_merge", "c03.domain_map"]
+PROPS["C04"]["default_twins"] = PROPS["C04"]["default_twins"] + ["c04.data_bounds", "c04.data_intersect"]
+PROPS["C04"]["sweep_twins"] = PROPS["C04"]["sweep_twins"] + ["c04.data_bounds", "c04.data_intersect"]
+
 # ---- satisfiability audit (SAT_AUDIT.md): every property -------------------------------------------------------------
 TWINS["interval_base"] = [t for t in TWINS["interval_base"] if t[0] not in ("Interval::is_top", "Interval::new_top")]
 for _pid in PROPS:
